@@ -174,14 +174,14 @@ func (s *recStore) times(sid, stream string) []time.Time {
 }
 
 type c08Exchange struct {
-	Attached time.Time `json:"-"` // when the 200 arrived
-	Ended    time.Time `json:"-"` // when the client stopped reading (cut or end of body)
-	Kind   string        `json:"kind"`
-	LEID   string        `json:"last_event_id,omitempty"`
-	Status int           `json:"status"`
-	Events []vhm.SSEvent `json:"events"`
-	EOF    bool          `json:"eof"`
-	SID    string        `json:"-"`
+	Attached time.Time     `json:"-"` // when the 200 arrived
+	Ended    time.Time     `json:"-"` // when the client stopped reading (cut or end of body)
+	Kind     string        `json:"kind"`
+	LEID     string        `json:"last_event_id,omitempty"`
+	Status   int           `json:"status"`
+	Events   []vhm.SSEvent `json:"events"`
+	EOF      bool          `json:"eof"`
+	SID      string        `json:"-"`
 }
 
 func TestVerifC08(t *testing.T) {
